@@ -542,4 +542,58 @@ def brkDoP (acc : Option Err → Option Bool) (req : Result) : Result :=
     | some m => { req with mark := some m }
     | none => { req with escaped := true, ret := some (Err.of .panic), mark := none }
 
+namespace Conc
+
+/-! ### round 5c: two `Transact` calls in flight on one connection pool (small interleaving model)
+
+Each call is `transactOnConn`: Begin (database/sql hands it a connection that no open transaction holds — the
+pool never gives out a checked-out connection; which one is the scheduler's / pool's choice `c`), then its
+statements one by one, then its one end, all on ITS connection (`tx` is a local of the call: the wiring of
+`Props.statements_inside_the_transaction`).  The two calls interleave arbitrarily. -/
+
+inductive PC
+  | idle                  -- not begun
+  | running (left : Nat)  -- transaction open, `left` statements to go
+  | done                  -- ended
+  deriving DecidableEq, Repr
+
+structure St where
+  pc     : Bool → PC
+  conn   : Bool → Option Nat       -- the connection that holds the call's open transaction
+  begins : Bool → Nat              -- Begins / ends of the call's transaction seen by the driver
+  ends   : Bool → Nat
+  /-- statements of call `t` that ran on a connection held by the OTHER call's transaction or by none -/
+  stray  : Bool → Nat
+
+def upd {α} (f : Bool → α) (t : Bool) (v : α) : Bool → α := fun x => if x = t then v else f x
+
+/-- one step of call `t`; `c`: the connection the pool offers for a Begin; `n`: the length of the body -/
+def step (n : Bool → Nat) (s : St) (t : Bool) (c : Nat) : Option St :=
+  match s.pc t with
+  | .idle =>
+    -- the pool does not hand out a connection that holds an open transaction
+    if s.conn (!t) = some c then none
+    else some { s with pc := upd s.pc t (.running (n t)), conn := upd s.conn t (some c), begins := upd s.begins t (s.begins t + 1) }
+  | .running (k + 1) =>
+    -- a statement: on the call's own connection
+    some { s with pc := upd s.pc t (.running k),
+                  stray := upd s.stray t (s.stray t + (if s.conn t = none ∨ s.conn t = s.conn (!t) then 1 else 0)) }
+  | .running 0 =>
+    -- the one Commit / Rollback; the connection goes back to the pool
+    some { s with pc := upd s.pc t .done, conn := upd s.conn t none, ends := upd s.ends t (s.ends t + 1) }
+  | .done => none
+
+def init : St :=
+  { pc := fun _ => .idle, conn := fun _ => none, begins := fun _ => 0, ends := fun _ => 0, stray := fun _ => 0 }
+
+/-- every schedule: a list of (call, offered connection) choices; steps that are not enabled are skipped -/
+def run (n : Bool → Nat) : St → List (Bool × Nat) → St
+  | s, [] => s
+  | s, (t, c) :: rest =>
+    match step n s t c with
+    | some s' => run n s' rest
+    | none => run n s rest
+
+end Conc
+
 end GoZero.C14
